@@ -451,6 +451,9 @@ def run(ctx):
     cases = corpus() + [gen_case(ctx.rng) for _ in range(ctx.q(300, 10000))]
     cases += [gen_structure_case(ctx.rng) for _ in range(ctx.q(80, 3000))]
     cases += [gen_real_case(ctx.rng) for _ in range(ctx.q(12, 200))]
+    # always: a v3 and a v2 file whose target sensor is unparsable in mid-observation
+    cases += [dict(kind='real', fmt=f, seed=ctx.rng.randrange(2 ** 31), T=8, cuts=[2, 5, 7], blank='not a target at all',
+                   order=[0, 2, 1]) for f in ('v3', 'v2')]
     bad = evaluate(ctx, cases)
     for c, v in bad:
         ctx.violation(c, v)
